@@ -52,6 +52,11 @@ pub fn dispatch(st: &mut State, fam: &str, rest: &str) -> Option<String> {
 			("_slice", 4) => { let len = num(a[3]) as usize;
 				if is_va { with_specific!(st, k, g, p => by_struct!(t, T => match p.deref_slice::<T>((x as VaT).into(), len) { Ok(r) => format!("ok {}", tref(g, r.as_ptr(), r.len() * std::mem::size_of::<T>())), Err(e) => er(e) })) }
 				else { with_any!(st, k, g, p => by_struct!(t, T => match p.derva_slice::<T>(x as u32, len) { Ok(r) => format!("ok {}", tref(g, r.as_ptr(), r.len() * std::mem::size_of::<T>())), Err(e) => er(e) })) } },
+			// derva_copy / deref_copy of a composite type (size > alignment): the copied VALUE as its bytes
+			("_copy", 3) => {
+				fn bytes_of<T>(v: &T) -> String { hex(unsafe { std::slice::from_raw_parts(v as *const T as *const u8, std::mem::size_of::<T>()) }) }
+				if is_va { with_specific!(st, k, g, p => { let _ = g; by_struct!(t, T => match p.deref_copy::<T>((x as VaT).into()) { Ok(r) => format!("ok {}", bytes_of(&r)), Err(e) => er(e) }) }) }
+				else { with_any!(st, k, g, p => { let _ = g; by_struct!(t, T => match p.derva_copy::<T>(x as u32) { Ok(r) => format!("ok {}", bytes_of(&r)), Err(e) => er(e) }) }) } },
 			// derva_slice_f / deref_slice_f <k> <t> <x> count:<n> on the struct element types (the value is not looked at)
 			("_slice_f", 4) => { let (is_count, pv) = match parse_pred(a[3]) { Some(p) => p, None => return Some("bad-op".to_string()) };
 				if !is_count { return Some("bad-op".to_string()); }
